@@ -200,10 +200,22 @@ def check(ctx):
                 vals = [nv]
                 if isinstance(nv, ast.Name):
                     vals = [d.value for d in defs_reaching(rec, nv.id, r)]
-                good = all(x is not None and f"{_self_name(rec)}.nrow" in norm(x) for x in vals)
-                ctx.ob("STO-2", rec, f"nrow = {', '.join(norm(x) for x in vals if x is not None)}", r, good,
-                       "the target length is the frame's own nrow (None only for an empty frame)" if good else
-                       "the target length is not the frame's nrow", nontrivial=False)
+                sn = _self_name(rec)
+                good = True
+                why = "the target length is the frame's own nrow; None (no length check) only when the frame has no columns"
+                for x in vals:
+                    t = norm(x) if x is not None else ""
+                    if t == f"{sn}.nrow":
+                        continue
+                    if isinstance(x, ast.IfExp) and norm(x.body) == f"{sn}.nrow" and norm(x.orelse) == "None" \
+                            and norm(x.test) in (sn, f"len({sn})", f"{sn}.ncol", f"{sn}.colnames", f"len({sn}) > 0", f"{sn}.ncol > 0"):
+                        continue
+                    good = False
+                    why = (f"the target length is {t}: it must be the frame's nrow whenever the frame has columns -- "
+                           f"a form like `nrow or None` also disables the length check for a frame with columns but ZERO rows, "
+                           f"so a column of any length can be stored next to empty ones")
+                ctx.ob("STO-2", rec, f"nrow = {', '.join(norm(x) for x in vals if x is not None)}", r, good, why,
+                       clause="any other length mismatch is rejected; including 0-row shapes")
     # ---------------------------------------------------------------- STO-3
     n_prim = 0
     for fn in repo.functions.values():
@@ -374,6 +386,17 @@ def check(ctx):
     ctx.ob("MPT-2", vc, "raise unless ndim == 1", vc.node, ok,
            "returns normally only when ndim == 1" if ok else "Vector._check_dimensions can return for ndim != 1",
            clause="each column is a one-dimensional column vector")
+    nr = repo.fn(f"{DFC}.nrow")
+    rets = [n for n in body_nodes(nr.node) if isinstance(n, ast.Return)]
+    ok = bool(rets) and all(r.value is not None and any(
+        (isinstance(x, ast.Attribute) and x.attr == "length" and norm(x.value) == nr.params[0]) or
+        (isinstance(x, ast.Call) and isinstance(x.func, ast.Attribute) and x.func.attr == "_check_dimensions")
+        for x in ast.walk(r.value)) for r in rets) or \
+        cfg_of(nr).path_avoiding(lambda n: n.ast is not None and n.kind in ("stmt", "test") and "_check_dimensions()" in norm(n.ast)) is None
+    ctx.ob("MPT-2", nr, "DataFrameColumn.nrow is the dimension-checked length", rets[0] if rets else nr.node, ok,
+           "the length compared by the constructor, _reconcile_column and _check_dimensions is Vector.length, which rejects ndim != 1" if ok else
+           "DataFrameColumn.nrow no longer goes through the dimension-checked .length: a 2-D column whose first axis equals nrow "
+           "passes every length comparison and is stored", clause="each column is a one-dimensional column vector")
     ok = any(repo.dotted(new, c.func) == VEC for f, c in calls_in(new))
     ctx.ob("MPT-2", new, "column = Vector(object, dtype)", new.node, ok,
            "columns are built by the Vector constructor" if ok else "DataFrameColumn.__new__ no longer builds a Vector", nontrivial=False)
